@@ -154,7 +154,7 @@ Proof. destruct r; reflexivity. Qed.
 
 Theorem alias_eq_definition : forall cfg k d,
   key_text k = true ->
-  def_of cfg (Some k) = Some d -> acyclic_from cfg d = true ->
+  def_of cfg (Some k) = Some d -> self_free cfg d = true ->
   mc_text cfg = WNone -> same_reading cfg d ->
   markup_parse cfg k = markup_parse cfg d.
 Proof.
@@ -166,12 +166,21 @@ Qed.
 
 Corollary alias_eq_definition_expand : forall x k d,
   key_text k = true ->
-  def_of (xc_m x) (Some k) = Some d -> acyclic_from (xc_m x) d = true ->
+  def_of (xc_m x) (Some k) = Some d -> self_free (xc_m x) d = true ->
   mc_text (xc_m x) = WNone -> same_reading (xc_m x) d ->
   expand_markup_str x k = expand_markup_str x d.
 Proof.
   intros x k d Hk Hd Hac Ht Hsr. unfold expand_markup_str, expand_markup.
   rewrite (alias_eq_definition (xc_m x) k d Hk Hd Hac Ht Hsr). reflexivity.
+Qed.
+
+(* the semantic form: the definition does not reach itself through the names it mentions *)
+Corollary alias_eq_definition_not_reaching : forall cfg k d,
+  key_text k = true -> def_of cfg (Some k) = Some d -> ~ reaches cfg d d ->
+  mc_text cfg = WNone -> same_reading cfg d ->
+  markup_parse cfg k = markup_parse cfg d.
+Proof.
+  intros cfg k d Hk Hd Hr Ht Hs. apply alias_eq_definition; try assumption. apply self_free_of_not_reaching. exact Hr.
 Qed.
 
 (* the whole-table form: every key of an acyclic table *)
@@ -182,7 +191,7 @@ Corollary alias_eq_definition_table : forall cfg k d,
   markup_parse cfg k = markup_parse cfg d.
 Proof.
   intros cfg k d Hac Hk Hd Hj Ht Hm. apply alias_eq_definition; try assumption.
-  - unfold acyclic_table in Hac. rewrite forallb_forall in Hac. apply Hac. apply (def_of_value cfg (Some k) d Hd).
+  - apply self_free_of_acyclic_table; [apply (def_of_value cfg (Some k) d Hd)|exact Hac].
   - apply same_reading_plain; assumption.
 Qed.
 
@@ -197,7 +206,7 @@ Definition cyc_cfg : mconfig :=
 Example cyclic_cut_refuted :
   key_text [97]%N = true /\ def_of cyc_cfg (Some [97]%N) = Some [98;46;120]%N /\
   same_reading cyc_cfg [98;46;120]%N /\ mc_text cyc_cfg = WNone /\
-  acyclic_from cyc_cfg [98;46;120]%N = false /\
+  self_free cyc_cfg [98;46;120]%N = false /\
   (exists t1 t2, markup_parse cyc_cfg [97]%N = Ok t1 /\ markup_parse cyc_cfg [98;46;120]%N = Ok t2 /\ t1 <> t2).
 Proof.
   split; [reflexivity|]. split; [reflexivity|]. split; [reflexivity|]. split; [reflexivity|].
@@ -212,7 +221,7 @@ Definition txt_cfg : mconfig :=
   mkMConfig [104;116;109;108]%N [([120]%N, [112;123;104;105;125]%N)] [] (WStr []) None None false None [] false false
             false [] [] None.
 Example empty_text_differs :
-  acyclic_from txt_cfg [112;123;104;105;125]%N = true /\
+  self_free txt_cfg [112;123;104;105;125]%N = true /\
   (exists t1 t2, markup_parse txt_cfg [120]%N = Ok t1 /\ markup_parse txt_cfg [112;123;104;105;125]%N = Ok t2 /\ t1 <> t2).
 Proof.
   split; [vm_compute; reflexivity|].
@@ -235,4 +244,20 @@ Example alias_eq_definition_nonvacuous :
 Proof.
   split; [vm_compute; reflexivity|]. split; [reflexivity|]. split; [reflexivity|].
   eexists. split; [vm_compute; reflexivity|reflexivity].
+Qed.
+
+(* a cycle that does not pass through the definition is harmless: f = `a.x>b`, a = `a[href]` (the shape of
+   the built-in `a`, `img`, `link` ...): the table is not acyclic from f's definition, but the
+   definition does not reach itself *)
+Definition loop_cfg : mconfig :=
+  mkMConfig [104;116;109;108]%N
+            [([102]%N, [97;46;120;62;98]%N);                 (* f = a.x>b *)
+             ([97]%N, [97;91;104;114;101;102;93]%N)]         (* a = a[href] *)
+            [] WNone None None false None [] false false false [] [] None.
+Example self_free_weaker :
+  acyclic_from loop_cfg [97;46;120;62;98]%N = false /\ self_free loop_cfg [97;46;120;62;98]%N = true /\
+  exists t, markup_parse loop_cfg [102]%N = Ok t /\ markup_parse loop_cfg [97;46;120;62;98]%N = Ok t /\ length t = 1.
+Proof.
+  split; [vm_compute; reflexivity|]. split; [vm_compute; reflexivity|].
+  eexists. split; [vm_compute; reflexivity|]. split; [vm_compute; reflexivity|reflexivity].
 Qed.
